@@ -49,6 +49,9 @@ func (m *impl) Exec(line string) string {
 		cp.Types = append([]TypeD{}, m.def.Types...)
 		cp.Items = append([]Item{}, m.def.Items...)
 		m.cur = m.w.get(&cp)
+		if m.cur.probe != nil {
+			m.cur.probe.fresh()
+		}
 		return m.cur.status
 	}
 	if len(ws) < 3 {
